@@ -782,6 +782,116 @@ func (b *Builder) closedInitTerm(pk *packages.Package, call *ast.CallExpr) *Term
 	return t
 }
 
+// litParamArgs: v is a function-typed parameter of a function literal that is
+// bound once to a local variable f (f := func(.., v func(..), ..) {..}), f is
+// only ever called directly, v is never assigned, and every call of f passes a
+// function literal for v: returns those literals (the values v can hold).
+func litParamArgs(body *ast.BlockStmt, info *types.Info, v *types.Var) []*ast.FuncLit {
+	if _, isFunc := v.Type().Underlying().(*types.Signature); !isFunc {
+		return nil
+	}
+	var host *ast.FuncLit
+	idx := -1
+	ast.Inspect(body, func(n ast.Node) bool {
+		fl, ok := n.(*ast.FuncLit)
+		if !ok || fl.Type.Params == nil {
+			return true
+		}
+		k := 0
+		for _, f := range fl.Type.Params.List {
+			for _, nm := range f.Names {
+				if info.Defs[nm] == v {
+					host, idx = fl, k
+				}
+				k++
+			}
+		}
+		return true
+	})
+	if host == nil {
+		return nil
+	}
+	// the variable the host literal is bound to
+	var fobj types.Object
+	nbind := 0
+	ast.Inspect(body, func(n ast.Node) bool {
+		switch x := n.(type) {
+		case *ast.AssignStmt:
+			for i, r := range x.Rhs {
+				if ast.Unparen(r) == ast.Expr(host) && len(x.Lhs) == len(x.Rhs) {
+					if id, ok := x.Lhs[i].(*ast.Ident); ok {
+						if o := info.Defs[id]; o != nil {
+							fobj = o
+						} else {
+							fobj = info.Uses[id]
+						}
+						nbind++
+					}
+				}
+			}
+		case *ast.ValueSpec:
+			for i, r := range x.Values {
+				if ast.Unparen(r) == ast.Expr(host) && i < len(x.Names) {
+					fobj = info.Defs[x.Names[i]]
+					nbind++
+				}
+			}
+		}
+		return true
+	})
+	if fobj == nil || nbind != 1 {
+		return nil
+	}
+	var lits []*ast.FuncLit
+	ok := true
+	calls := map[*ast.Ident]bool{}
+	ast.Inspect(body, func(n ast.Node) bool {
+		call, isCall := n.(*ast.CallExpr)
+		if !isCall {
+			return true
+		}
+		id, isId := ast.Unparen(call.Fun).(*ast.Ident)
+		if !isId || info.Uses[id] != fobj {
+			return true
+		}
+		calls[id] = true
+		if idx >= len(call.Args) || call.Ellipsis.IsValid() {
+			ok = false
+			return true
+		}
+		if fl, isLit := ast.Unparen(call.Args[idx]).(*ast.FuncLit); isLit {
+			lits = append(lits, fl)
+		} else {
+			ok = false
+		}
+		return true
+	})
+	// f is used only in call position (and at its single binding); v is never assigned or has its address taken
+	ast.Inspect(body, func(n ast.Node) bool {
+		switch x := n.(type) {
+		case *ast.Ident:
+			if info.Uses[x] == fobj && !calls[x] {
+				ok = false
+			}
+		case *ast.AssignStmt:
+			for _, l := range x.Lhs {
+				if id, isId := l.(*ast.Ident); isId && info.Uses[id] == v {
+					ok = false
+				}
+			}
+		case *ast.UnaryExpr:
+			if id, isId := ast.Unparen(x.X).(*ast.Ident); isId && x.Op == token.AND && info.Uses[id] == v {
+				ok = false
+			}
+		}
+		return true
+	})
+	if !ok || len(lits) == 0 {
+		return nil
+	}
+	return lits
+}
+
 // funcVarLits: every assignment to the local function variable v (in the
 // function that declares it) is a function literal; returns them.
 func (b *Builder) funcVarLits(v *types.Var) []*ast.FuncLit {
@@ -801,6 +911,9 @@ func (b *Builder) funcVarLits(v *types.Var) []*ast.FuncLit {
 		return nil
 	}
 	info := fs.Pkg.TypesInfo
+	if pl := litParamArgs(fs.Decl.Body, info, v); pl != nil {
+		return pl
+	}
 	var lits []*ast.FuncLit
 	ok := true
 	ast.Inspect(fs.Decl.Body, func(n ast.Node) bool {
